@@ -329,7 +329,9 @@ class _VolumeStage(CaseStage):
 def keyname_cases(tier):
     out = []
     for alg, kind in ALG_KEYS:
-        for pat in ("{}.v2", "solo.{}", "solo.{}-der"):
+        for pat in ("{}.v2", "solo.{}", "solo.{}-der", "{}-trad", "{}-crlf", "{}-sec1", "{}-text"):
+            if pat[3:] in ("trad", "sec1") and not kind.startswith("p"):
+                continue                # the traditional (SEC1) forms exist for the NIST curves only
             for via in ("main", "cli"):
                 out.append({"alg": alg, "key": pat.format(kind), "via": via})
     return out
@@ -359,6 +361,10 @@ def run_keyname(case, agg):
                               kms_script=kms_script, already_signed_action=SignatureAlreadyPresentActions("error"))
             out = open(outp, "rb").read()
         except Exception as e:
+            if case["key"].endswith("-text"):
+                # text before the armour: accepted by the standard loader of this installation or not - a refusal is not a violation
+                agg.rej(h8("c04k", case), "refused:text-before-armour", nontrivial=False)
+                return
             agg.viol(f"C04:key-name/sign-failed/{type(e).__name__}", f"{label}: {type(e).__name__}: {str(e)[-300:]}")
             return
     r = check_signed(b, out, case["alg"], case["key"], 0x77)
@@ -473,7 +479,7 @@ def plan(tier):
         CaseStage("sign-product", lambda: sign_cases(tier), run_sign, disjoint=True, rule="E x (alg,key) x key id x key encoding"),
         CaseStage("rs-seam", lambda: rs_cases(tier), run_rs, chunk=1, rule="every (r,s) leading-zero pattern, 3 curves, through the KMS ECDSA conversion"),
         CaseStage("key-names", lambda: keyname_cases(tier), run_keyname, chunk=2,
-                  rule="6 (alg,key type) x key names with dots (sibling with the truncated name present / absent, PEM / DER) x main / CLI"),
+                  rule="6 (alg,key type) x {key names with dots (sibling with the truncated name present / absent, PEM / DER), key files in the traditional EC PEM / SEC1 DER form, with CRLF line ends, with text before the armour} x main / CLI"),
         CaseStage("kms-scripts-in-one-process", lambda: kmsseq_cases(tier), run_kmsseq,
                   rule="all sequences of <= 3 single-level signings with {stock KMS script, a second script of the same file name and another key store} x 2 algorithms"),
         core.BfsStage("library-histories", lib_init, lib_step, max_depth=2 if tier == "quick" else 3,
